@@ -59,10 +59,12 @@ def addresses(arch, data):
 
 
 def _where(ex):
+    """innermost frame inside miasm/arch (the semantic function), else innermost miasm frame"""
     tb = traceback.extract_tb(ex.__traceback__)
-    for fr in reversed(tb):
-        if "/miasm/" in fr.filename:
-            return fr.filename.split("/miasm/")[-1], fr.name
+    for pat in ("/miasm/arch/", "/miasm/"):
+        for fr in reversed(tb):
+            if pat in fr.filename:
+                return fr.filename.split("/miasm/")[-1], fr.name
     return "?", "?"
 
 
